@@ -58,6 +58,11 @@ for i in sorted(os.listdir(outdir)):
             print((o0 if rc0 else '') + (ob if rcb else '') + (ot if rct else '')[-600:] + (op if rcp else '')[-300:] + (o1[-300:] if rc1 == 0 else ''))
             continue
         sid = f"{prop}-{sfx}{i}"
+        k = 0
+        while os.path.exists(os.path.join(here, 'seeded', sid)):
+            k += 1
+            sid = f"{prop}-{sfx}{i}{chr(ord('a')+k)}"   # never overwrite an earlier change with the same id
+        print('filed as', sid)
         sd = os.path.join(here, 'seeded', sid)
         os.makedirs(sd, exist_ok=True)
         shutil.copy(patch, os.path.join(sd, 'patch.diff'))
